@@ -31,6 +31,8 @@ func runC02(c *Ctx) {
 	ruleAddrDeps(c, "C02.3")
 	ruleInstalledAddrFresh(c, "C02.5")
 	ruleExpiryRemoves(c, "C02.6")
+	// a permission that lives as long as a channel admits its peer past the permission timeout
+	ruleTimerRoles(c, "C02.7")
 }
 
 // srcOfSameInput: v (possibly behind a comma-ok type assertion) is result #1 of an invoke of
